@@ -212,6 +212,11 @@ func c05family(thorough bool, add func(cfg *Config, bound int, maxExec int64, or
 	progs = append(progs, [][]StepCfg{
 		{sig(hang(st("a")), "SIGINT")},
 		{sig(ign(st("a")), "SIGINT")},
+		// signalOnStop is per step: a step without one gets SIGTERM whatever its neighbours declare
+		{sig(hang(st("a")), "SIGINT"), hang(st("b"))},
+		{hang(st("a")), sig(hang(st("b")), "SIGINT")},
+		{sig(st("a"), "SIGINT"), hang(st("b", "a"))},
+		{sig(hang(st("a")), "SIGINT"), sig(hang(st("b")), "SIGUSR1"), hang(st("c"))},
 		{rep(st("a"), 1000), st("b")},
 		{rep(st("a"), 1000)},
 		{retrying(st("a"), -1, 2, 2000)},
